@@ -263,17 +263,7 @@ func genC17() string {
 	}
 	fmt.Fprintf(&b, "/-- `%s.WaitDelay` in milliseconds as assigned in execCommander.Output (`none`: not assigned or zero) -/\ndef waitDelayMs : Option Nat := %s\n\n", cmdVar, wd)
 
-	// the order of the checks of validate(), as the texts of the errors they produce
-	val := mustFunc(f, file, "", "validate")
-	var checks []string
-	for _, st := range val.Body.List {
-		ifs, ok := st.(*ast.IfStmt)
-		if !ok {
-			continue
-		}
-		checks = append(checks, exprText(ifs.Cond))
-	}
-	fmt.Fprintf(&b, "/-- the conditions of `validate`, in source order -/\ndef validateChecks : List String := %s\n\n", leanStrList(checks))
+	// (validate() itself is translated to Lean by go2lean_c17.go and tied to the model there)
 
 	// package-level variables (mutable state shared by all calls) that run / Output touch;
 	// error sentinels (errors.New / fmt.Errorf initialisers) do not count
